@@ -154,6 +154,24 @@ class OrderEval:
             elif isinstance(e.func, ast.Name) and e.func.id == "bool" and len(e.args) == 1:
                 return ("bool", self.truth(self.expr(e.args[0])))
             if name is None:
+                # a helper of the same module: evaluate its body on the abstract arguments
+                h = self.prog.resolve_name(self.f.module, e.func.id) if isinstance(e.func, ast.Name) else None
+                if h is not None and hasattr(h, "node") and isinstance(h.node, ast.FunctionDef) and getattr(self, "depth", 0) < 2 \
+                        and not any(isinstance(a, ast.Starred) for a in e.args) and not any(k.arg is None for k in e.keywords):
+                    hp = h.params()
+                    if len(e.args) + len(e.keywords) == len(hp) and all(k.arg in hp for k in e.keywords):
+                        henv = {"@rels": self.env["@rels"]}
+                        for pn, a in zip(hp, e.args):
+                            henv[pn] = self.expr(a)
+                        for k in e.keywords:
+                            henv[k.arg] = self.expr(k.value)
+                        sub = OrderEval(self.prog, h, henv)
+                        sub.depth = getattr(self, "depth", 0) + 1
+                        got = sub.run(body_nodoc(h.node))
+                        self.arith = self.arith or sub.arith
+                        if got is None:
+                            raise AbsUnknown("helper %s falls off the end" % e.func.id)
+                        return got
                 raise AbsUnknown("call %s" % dump(e)[:40])
             v = self.expr(arg)
             if v[0] != "elem":
@@ -550,7 +568,9 @@ def check_filter(prog, rep):
         if got == want:
             return
         ok = False
-        if comparable(got, want):
+        plain = got is not None and all(isinstance(a, tuple) and a and a[0] == "var" for a in got.atoms())
+        if comparable(got, want) or plain:
+            # `plain`: a polynomial of the loop variables alone cannot equal a value that depends on the keep-mask
             rep.violate(R, construct, "%s: %s" % (label, what), where(f, loop), want.show()[:120], got.show()[:120])
         else:
             rep.unrec(R, construct, "%s is computed with other operators: %s" % (label, got.show()[:100]))
